@@ -425,6 +425,16 @@ class Inliner:
             if isinstance(n, ast.Name):
                 self.defs.setdefault(n.id, []).append(None)
 
+    def at(self, node):
+        """this inliner as seen from one program point: only the definitions of each local that reach `node` (structured reaching
+        definitions over if/for/while/with/try; branches that end in return/raise/continue/break do not flow on).  A name pre-set to
+        None and assigned in the branch that also contains `node` thus reads as that assignment."""
+        import copy
+        view = copy.copy(self)
+        view.stores = list(self.stores)
+        view.defs = _reaching(self.fn, node)
+        return view
+
     def single(self, name):
         d = self.defs.get(name)
         if name in self.params or not d or any(x is None for x in d):
@@ -497,6 +507,148 @@ class Inliner:
         finally:
             self.defs.update(saved)
         return out
+
+
+def _reaching(fn, node):
+    inside = {}
+
+    def contains(st):
+        k = id(st)
+        if k not in inside:
+            inside[k] = any(x is node for x in ast.walk(st))
+        return inside[k]
+
+    def bind(env, t, value):
+        if isinstance(t, ast.Name):
+            env[t.id] = [value]
+        elif isinstance(t, (ast.Tuple, ast.List)):
+            for i, e in enumerate(t.elts):
+                if isinstance(e, ast.Starred):
+                    kill(env, e.value)
+                else:
+                    bind(env, e, ast.Subscript(value=value, slice=ast.Constant(value=i), ctx=ast.Load()) if value is not None else None)
+
+    def kill(env, t):
+        for n in ast.walk(t):
+            if isinstance(n, ast.Name):
+                env[n.id] = [None]
+
+    def merge(envs):
+        out = {}
+        for e in envs:
+            for k, v in e.items():
+                cur = out.setdefault(k, [])
+                for d in v:
+                    if not any(d is x for x in cur):
+                        cur.append(d)
+        # a name missing on one side keeps what the other side has (undefined there: would be an error at run time)
+        return out
+
+    def terminates(stmts):
+        return bool(stmts) and isinstance(stmts[-1], (ast.Return, ast.Raise, ast.Continue, ast.Break))
+
+    def transfer(st, env):
+        """env after st (st does not contain the node)"""
+        if isinstance(st, ast.Assign):
+            for t in st.targets:
+                bind(env, t, st.value)
+        elif isinstance(st, ast.AnnAssign) and st.value is not None:
+            bind(env, st.target, st.value)
+        elif isinstance(st, ast.AugAssign):
+            kill(env, st.target)
+        elif isinstance(st, ast.If):
+            outs = []
+            for blk in (st.body, st.orelse):
+                e = {k: list(v) for k, v in env.items()}
+                for s_ in blk:
+                    e = transfer(s_, e)
+                if not terminates(blk):
+                    outs.append(e)
+            return merge(outs) if outs else env
+        elif isinstance(st, (ast.For, ast.AsyncFor, ast.While)):
+            e = {k: list(v) for k, v in env.items()}
+            if not isinstance(st, ast.While):
+                kill(e, st.target)
+            for s_ in st.body:
+                e = transfer(s_, e)
+            out = merge([env, e])
+            for s_ in st.orelse:
+                out = transfer(s_, out)
+            return out
+        elif isinstance(st, (ast.With, ast.AsyncWith)):
+            for it in st.items:
+                if it.optional_vars is not None:
+                    kill(env, it.optional_vars)
+            for s_ in st.body:
+                env = transfer(s_, env)
+        elif isinstance(st, ast.Try):
+            e = {k: list(v) for k, v in env.items()}
+            for s_ in st.body:
+                e = transfer(s_, e)
+            outs = [e]
+            for h in st.handlers:
+                eh = merge([env, e])
+                for s_ in h.body:
+                    eh = transfer(s_, eh)
+                if not terminates(h.body):
+                    outs.append(eh)
+            out = merge(outs)
+            for s_ in st.orelse + st.finalbody:
+                out = transfer(s_, out)
+            return out
+        else:
+            for n in ast.walk(st):
+                if isinstance(n, ast.NamedExpr):
+                    kill(env, n.target)
+        return env
+
+    result = {}
+
+    def flow(stmts, env):
+        for st in stmts:
+            if not contains(st):
+                env = transfer(st, env)
+                continue
+            if isinstance(st, ast.If):
+                if any(x is node for x in ast.walk(st.test)):
+                    result.update(env)
+                elif any(contains(s_) for s_ in st.body):
+                    flow(st.body, {k: list(v) for k, v in env.items()})
+                else:
+                    flow(st.orelse, {k: list(v) for k, v in env.items()})
+            elif isinstance(st, (ast.For, ast.AsyncFor, ast.While)):
+                after = transfer(st, {k: list(v) for k, v in env.items()})
+                e = merge([env, after])
+                if not isinstance(st, ast.While):
+                    kill(e, st.target)
+                if any(contains(s_) for s_ in st.body):
+                    flow(st.body, e)
+                elif any(contains(s_) for s_ in st.orelse):
+                    flow(st.orelse, after)
+                else:
+                    result.update(env)
+            elif isinstance(st, (ast.With, ast.AsyncWith)) and any(contains(s_) for s_ in st.body):
+                for it in st.items:
+                    if it.optional_vars is not None:
+                        kill(env, it.optional_vars)
+                flow(st.body, env)
+            elif isinstance(st, ast.Try):
+                for blk in [st.body] + [h.body for h in st.handlers] + [st.orelse, st.finalbody]:
+                    if any(contains(s_) for s_ in blk):
+                        if blk is st.body:
+                            flow(blk, env)
+                        else:
+                            flow(blk, merge([env, transfer(st, {k: list(v) for k, v in env.items()})]))
+                        break
+            else:
+                result.update(env)
+            return True
+        return False
+
+    body = fn.body if hasattr(fn, "body") else []
+    if not flow(body, {}):
+        raise AnalysisError("reaching definitions: the program point is not inside the function")
+    return result
 
 
 def fold_index(n):
@@ -575,6 +727,79 @@ class HelperView:
 
     def src(self, e):
         return norm_src(self.expr(e))
+
+
+def through_helpers(index_methods, inl, e, limit=32):
+    """texts `e` can stand for (as Inliner.alternatives), where additionally a call `self.<helper>(...)` of a same-class method that only
+    dispatches (every exit is `return <expr>`, at least one) stands for each of its returned expressions with the caller's arguments
+    substituted (one helper level).  `x, y = self.h(a)` with `h` returning `f(a)` on one branch and `g(a)` on another thus reads
+    `f(a)[0]` / `g(a)[0]` for x."""
+    import itertools
+    outs = []
+    saved_alts = inl.alternatives(e, limit)
+    if saved_alts is None:
+        return None
+    # re-derive expression trees for every alternative text (parse the normalised text back)
+    local_defs = {d.name: d for d in getattr(inl.fn, "body", []) if isinstance(d, ast.FunctionDef)}   # closures defined in the function itself
+
+    def helper_of(c):
+        if isinstance(c.func, ast.Attribute) and isinstance(c.func.value, ast.Name) and c.func.value.id == "self":
+            return index_methods.get(c.func.attr)
+        if isinstance(c.func, ast.Name):
+            return local_defs.get(c.func.id)
+        return None
+
+    for text in saved_alts:
+        tree = ast.parse(text, mode="eval").body
+        calls = [c for c in ast.walk(tree) if isinstance(c, ast.Call) and helper_of(c) is not None]
+        expandable = []
+        for c in calls:
+            h = helper_of(c)
+            rets = [r for r in walk_no_nested(h) if isinstance(r, ast.Return)]
+            if rets and all(r.value is not None for r in rets) and not any(
+                    isinstance(n, (ast.For, ast.While, ast.With, ast.Try)) for n in walk_no_nested(h)):
+                ident = Inliner(ast.parse("pass"))
+                hv = HelperView(ident, c, h)
+                expandable.append((c, [hv.expr(r.value) for r in rets]))
+        if not expandable:
+            outs.append(text)
+            continue
+        total = 1
+        for _, alts in expandable:
+            total *= len(alts)
+        if total > limit:
+            return None
+        for combo in itertools.product(*[alts for _, alts in expandable]):
+            tree_i = ast.parse(text, mode="eval").body
+            by_text = {norm_src(c): v for (c, _), v in zip(expandable, combo)}
+
+            class T2(ast.NodeTransformer):
+                def visit_Call(self, n):
+                    k = norm_src(n)
+                    if k in by_text:
+                        return _strip_parents(by_text[k])
+                    return self.generic_visit(n)
+
+                def visit_Subscript(self, n):
+                    return fold_index(self.generic_visit(n))
+
+            t = norm_src(T2().visit(tree_i))
+            if t not in outs:
+                outs.append(t)
+    return outs
+
+
+def walk_with_local_defs(fn):
+    """walk_no_nested(fn) plus the bodies of the closures defined in fn that fn calls by name (their code runs as part of every such call)"""
+    local_defs = {d.name: d for d in getattr(fn, "body", []) if isinstance(d, ast.FunctionDef)}
+    called = set()
+    for n in walk_no_nested(fn):
+        yield n
+        if isinstance(n, ast.Call) and isinstance(n.func, ast.Name) and n.func.id in local_defs:
+            called.add(n.func.id)
+    for name in sorted(called):
+        for n in walk_no_nested(local_defs[name]):
+            yield n
 
 
 def find_call(index_methods, fn, name, depth=1):
